@@ -17,7 +17,7 @@ func init() {
 			NotDecided:  "equality with the raw-key model over histories; behaviour of user-supplied codecs",
 			Assumptions: []string{"KVStore implementations report failures through their error result", "ierrors.Wrap of a non-nil error is non-nil"},
 		},
-		Modes: []string{"deadlock"},
+		Modes: []string{"deadlock", "stacktrace"},
 	})
 }
 
